@@ -52,6 +52,9 @@ type c04Case struct {
 	Prior *c04Case `json:"prior,omitempty"`
 	// LagMs (C17 workloads only): the consumer dawdles so long after each of the first blocks - block assembly falls behind the reader
 	LagMs int `json:"lag_ms,omitempty"`
+	// Card: the device number of the (one) active card; IdleCard0: with Card > 0, a card number 0 is installed too but not activated
+	Card      int  `json:"card,omitempty"`
+	IdleCard0 bool `json:"idle_card0,omitempty"`
 }
 
 func (c *c04Case) valid() bool {
@@ -376,9 +379,16 @@ func c04RunOn(ls *LanceroSource, c c04Case) (v vVerdict) {
 		card.holds[m.AfterChunk] = true
 	}
 
-	ls.devices = map[int]*LanceroDevice{0: {devnum: 0, card: card}}
+	if c.Card < 0 || c.Card > 7 {
+		return v
+	}
+	ls.devices = map[int]*LanceroDevice{c.Card: {devnum: c.Card, card: card}}
 	ls.ncards = 1
-	cfg := &LanceroSourceConfig{FiberMask: 0xffff, ActiveCards: []int{0}, CardDelay: []int{1}, FirstRow: 1}
+	if c.Card > 0 && c.IdleCard0 {
+		ls.devices[0] = &LanceroDevice{devnum: 0, card: &vLiveCard{cols: 1, rows: 2, period: time.Millisecond, t0: vPipeT0}}
+		ls.ncards = 2
+	}
+	cfg := &LanceroSourceConfig{FiberMask: 0xffff, ActiveCards: []int{c.Card}, CardDelay: []int{1}, FirstRow: 1}
 	if err := ls.Configure(cfg); err != nil {
 		return vFailf("configure-rejected", "Configure: %v", err)
 	}
@@ -387,8 +397,8 @@ func c04RunOn(ls *LanceroSource, c c04Case) (v vVerdict) {
 	if err := ls.Sample(); err != nil {
 		return vFailf("sample-rejected", "Sample() with %d cols x %d rows: %v", c.Cols, c.Rows, err)
 	}
-	if ls.nchan != 2*W || ls.devices[0].ncols != c.Cols {
-		return vFailf("geometry", "Sample() found %d channels / %d columns for %d cols x %d rows", ls.nchan, ls.devices[0].ncols, c.Cols, c.Rows)
+	if ls.nchan != 2*W || ls.devices[c.Card].ncols != c.Cols {
+		return vFailf("geometry", "Sample() found %d channels / %d columns for %d cols x %d rows", ls.nchan, ls.devices[c.Card].ncols, c.Cols, c.Rows)
 	}
 	if err := ls.PrepareChannels(); err != nil {
 		return vFailf("prepare", "PrepareChannels: %v", err)
@@ -457,7 +467,7 @@ loop:
 			if m.Reconf >= 1 && m.Reconf <= 16 && m.Reconf != c.Nsamp {
 				cgb2, _ := json.Marshal(map[string]int{"SETT": 1, "seqln": c.Rows, "lsync": lsync, "testpattern": 0, "propagationdelay": 0, "NSAMP": m.Reconf, "carddelay": 0, "XPT": 0})
 				os.WriteFile(cg, cgb2, 0o644)
-				rerr := ls.Configure(&LanceroSourceConfig{FiberMask: 0xffff, ActiveCards: []int{0}, CardDelay: []int{1}, FirstRow: 1})
+				rerr := ls.Configure(&LanceroSourceConfig{FiberMask: 0xffff, ActiveCards: []int{c.Card}, CardDelay: []int{1}, FirstRow: 1})
 				os.WriteFile(cg, cgb, 0o644)
 				if rerr == nil {
 					return vFailf("configure-accepted-while-running", "ConfigureLanceroSource was accepted while the source is running")
@@ -850,6 +860,9 @@ loop:
 	if extCols {
 		v.Classes = append(v.Classes, "ext-trigger-multicolumn")
 	}
+	if c.Card > 0 {
+		v.Classes = append(v.Classes, "active-card-is-not-number-0")
+	}
 	if len(ext) > 0 {
 		v.Classes = append(v.Classes, "ext-trigger")
 	}
@@ -881,6 +894,10 @@ func c04Gen(t *rapid.T) c04Case {
 	c.Rows = rapid.SampledFrom([]int{2, 3, 4, 5, 8, 16}).Draw(t, "rows")
 	c.Nsamp = rapid.SampledFrom([]int{1, 2, 4, 16}).Draw(t, "nsamp")
 	c.Seed = rapid.IntRange(0, 1<<20).Draw(t, "seed")
+	if rapid.IntRange(0, 3).Draw(t, "othercard") == 0 {
+		c.Card = rapid.IntRange(1, 3).Draw(t, "card")
+		c.IdleCard0 = rapid.Bool().Draw(t, "idlecard0")
+	}
 	W := c.Cols * c.Rows
 	fs := 4 * W
 	c.StartOff = rapid.SampledFrom([]int{0, 0, 1, W - 1, W / 2}).Draw(t, "startoff")
